@@ -100,9 +100,12 @@ theorem merge_noClash (cv : Conv V) (r : Ref) (l t : Sec V) (hwf : wfSec cv t = 
       unfold mergeCheck
       simp [mergeCheckSecs_disjoint cv false l.secs ts hnc.1,
             mergeCheckProps_disjoint cv false l.props tp hnc.2]
+    have hcl : typeClash l (.mk ta tp ts) = false := by
+      rw [typeClash]; exact typeClashSecs_disjoint l.secs ts hnc.1
     unfold merge
     rw [hck]
-    simp only [mergeSecs_disjoint cv false r ts l.secs hwf.2.2 hnc.1,
+    simp only [hcl, Bool.false_eq_true, if_false,
+               mergeSecs_disjoint cv false r ts l.secs hwf.2.2 hnc.1,
                mergeProps_disjoint cv false tp l.props hwf.1 hnc.2]
 
 /-! ## A copy equals its original (`BaseObject.__eq__`) -/
